@@ -438,6 +438,8 @@ class CongClosureHOL:
         
         def get_proofterm(u, v):
             """Get proof term corresponding to u = v."""
+            if u == v:
+                return ProofTerm.reflexive(self.index[u])
             path = explain[(u, v)]
             cur_pos = u
             pt = ProofTerm.reflexive(self.index[u])
